@@ -6,6 +6,7 @@ The batched renderer's window arithmetic is C11's model (Batch.lean).
 -/
 import DTML.Render
 import DTML.Props.C08
+import DTML.Props.C11
 set_option linter.unusedVariables false
 namespace DTML.Props.C10
 open DTML.Render
@@ -288,5 +289,362 @@ example : okPieces (renderBlk {} 40 (.in_ (.name "seq".toList) {} [.var (.name "
       .var (.name "sequence-Roman".toList) false none none, .lit ";".toList] none)
     { stack := [.dict [("seq".toList, items)]] }).1 = some [.text "1I;FalseII;TrueIII;".toList] := by decide +kernel
 end Example
+
+/-! #### batched loops (`renderwb`): the window is visited once per element, with the batch variables
+
+`Blk.inx_` with batch parameters → `inBatch` / `inLoopB`; the window comes from `Batch.window` (C11's model), so C11's
+theorems about windows and links apply to what the interpreter renders. -/
+
+namespace Batched
+
+/-- the variables element `i` of the window sees -/
+def svB (sv : SeqVars) (w : BWin) (i : Nat) : SeqVars := { batchStep sv w i with index := i }
+
+/-- **The batched loop's step rule** (no item guard installed): nothing at or past the end of the window; otherwise
+element `i` is rendered once with the variables of position `i`, then the loop continues with `i + 1` and
+`sequence-start` cleared once the first element of the window has been rendered -/
+theorem inLoopB_rule (env : Env) (hg : env.guardOn = false) (fuel : Nat) (sv : SeqVars) (o : InOpts) (w : BWin)
+    (body : List Blk) (i : Nat) (st : St) :
+    inLoopB env (fuel + 1) sv o w body i st =
+      if i ≥ w.stop then (.ok [], st)
+      else
+        match inIter env fuel (svB sv w i) o body i (setSeq (svB sv w i) st) with
+        | (.ok p, st2) =>
+          (match inLoopB env fuel (afterItem (svB sv w i) w i) o w body (i + 1) st2 with
+           | (.ok ps, st3) => (.ok (p :: ps), st3)
+           | r => r)
+        | (.raise e, st2) => (.raise e, st2)
+        | (.ret v, st2) => (.ret v, st2)
+        | (.oom, st2) => (.oom, st2) := by
+  simp only [inLoopB, svB, setSeq, itemDenied_noguard env _ i hg, hg]
+  rfl
+
+/-- **Once per element of the window**: a batched loop that completes from element `i` has rendered the body exactly
+once for each of the elements `i … stop-1` -/
+theorem once_per_window_element (env : Env) (hg : env.guardOn = false) : ∀ (fuel : Nat) (sv : SeqVars) (o : InOpts) (w : BWin)
+    (body : List Blk) (i : Nat) (st st' : St) (ps : List Piece),
+    inLoopB env fuel sv o w body i st = (.ok ps, st') → ps.length = w.stop - i := by
+  intro fuel
+  induction fuel with
+  | zero => intro sv o w body i st st' ps h; simp [inLoopB] at h
+  | succ n ih =>
+    intro sv o w body i st st' ps h
+    rw [inLoopB_rule env hg] at h
+    split at h
+    · rename_i hge
+      simp only [Prod.mk.injEq, Res.ok.injEq] at h
+      obtain ⟨rfl, _⟩ := h
+      simp; omega
+    · rename_i hlt
+      split at h
+      · rename_i p st2 hit
+        split at h
+        · rename_i qs st3 hl
+          simp only [Prod.mk.injEq, Res.ok.injEq] at h
+          obtain ⟨rfl, _⟩ := h
+          have := ih _ o w body (i + 1) st2 st3 qs hl
+          simp only [List.length_cons, this]
+          omega
+        · rename_i r hne
+          cases hr : inLoopB env n (afterItem (svB sv w i) w i) o w body (i + 1) st2 with
+          | mk r1 s1 =>
+            rw [hr] at h
+            cases r1 with
+            | ok qs => exact (hne qs s1 hr).elim
+            | raise e => cases h
+            | ret v => cases h
+            | oom => cases h
+      · cases h
+      · cases h
+      · cases h
+
+/-- storing a batch variable changes neither the position flags nor the elements -/
+theorem set_fields (sv : SeqVars) (n : Render.Text) (v : Val) :
+    (sv.set n v).items = sv.items ∧ (sv.set n v).started = sv.started ∧ (sv.set n v).ended = sv.ended ∧
+    (sv.set n v).index = sv.index ∧ (sv.set n v).prefix_ = sv.prefix_ ∧ (sv.set n v).mapping = sv.mapping := by
+  unfold SeqVars.set
+  cases sv.prefix_ <;> exact ⟨rfl, rfl, rfl, rfl, rfl, rfl⟩
+
+theorem prevInfo_fields (sv : SeqVars) (w : BWin) (f : Bool) :
+    (prevInfo sv w f).items = sv.items ∧ (prevInfo sv w f).started = sv.started ∧ (prevInfo sv w f).ended = sv.ended := by
+  unfold prevInfo
+  cases f <;> simp [set_fields]
+
+theorem nextInfo_fields (sv : SeqVars) (w : BWin) (f : Bool) :
+    (nextInfo sv w f).items = sv.items ∧ (nextInfo sv w f).started = sv.started ∧ (nextInfo sv w f).ended = sv.ended := by
+  unfold nextInfo
+  cases f <;> simp [set_fields]
+
+theorem batchInfo_fields (sv : SeqVars) (w : BWin) (i : Nat) :
+    (batchInfo sv w i).items = sv.items ∧ (batchInfo sv w i).started = sv.started ∧ (batchInfo sv w i).ended = sv.ended := by
+  unfold batchInfo
+  dsimp only
+  split <;> split <;> simp [prevInfo_fields, nextInfo_fields]
+
+theorem batchStep_fields (sv : SeqVars) (w : BWin) (i : Nat) :
+    (batchStep sv w i).items = sv.items ∧ (batchStep sv w i).started = sv.started ∧
+    (batchStep sv w i).ended = (sv.ended || (i + 1 == w.stop)) := by
+  unfold batchStep
+  dsimp only
+  have h1 : ((sv.set (txt "previous-sequence") (.int 0)).set (txt "next-sequence") (.int 0)).items = sv.items ∧
+      ((sv.set (txt "previous-sequence") (.int 0)).set (txt "next-sequence") (.int 0)).started = sv.started ∧
+      ((sv.set (txt "previous-sequence") (.int 0)).set (txt "next-sequence") (.int 0)).ended = sv.ended := by
+    have a := set_fields (sv.set (txt "previous-sequence") (.int 0)) (txt "next-sequence") (.int 0)
+    have b := set_fields sv (txt "previous-sequence") (.int 0)
+    exact ⟨a.1.trans b.1, a.2.1.trans b.2.1, a.2.2.1.trans b.2.2.1⟩
+  generalize (sv.set (txt "previous-sequence") (.int 0)).set (txt "next-sequence") (.int 0) = s1 at h1 ⊢
+  have h2 : (if (i == w.first || i + 1 == w.stop) = true then batchInfo s1 w i else s1).items = sv.items ∧
+      (if (i == w.first || i + 1 == w.stop) = true then batchInfo s1 w i else s1).started = sv.started ∧
+      (if (i == w.first || i + 1 == w.stop) = true then batchInfo s1 w i else s1).ended = sv.ended := by
+    split
+    · have c := batchInfo_fields s1 w i
+      exact ⟨c.1.trans h1.1, c.2.1.trans h1.2.1, c.2.2.trans h1.2.2⟩
+    · exact h1
+  generalize (if (i == w.first || i + 1 == w.stop) = true then batchInfo s1 w i else s1) = s2 at h2 ⊢
+  by_cases hl : (i + 1 == w.stop) = true
+  · simp only [hl, if_true, Bool.or_true]
+    exact ⟨h2.1, h2.2.1, trivial⟩
+  · have hl' : (i + 1 == w.stop) = false := by simpa using hl
+    simp only [hl', Bool.false_eq_true, if_false, Bool.or_false]
+    exact h2
+
+/-- **Position flags inside the window**: the element rendered at position `i` sees index `i` (its position in the
+whole sequence); `sequence-end` exactly on the last element of the window; `sequence-start` is whatever the loop
+carries, i.e. set until the first element of the window has been rendered (`afterItem`) -/
+theorem window_flags (sv : SeqVars) (w : BWin) (i : Nat) (h0 : sv.ended = false) :
+    (svB sv w i).index = i ∧ (svB sv w i).items = sv.items ∧ (svB sv w i).started = sv.started ∧
+    ((svB sv w i).ended = true ↔ i + 1 = w.stop) := by
+  have h := batchStep_fields sv w i
+  unfold svB
+  refine ⟨rfl, h.1, h.2.1, ?_⟩
+  show (batchStep sv w i).ended = true ↔ i + 1 = w.stop
+  rw [h.2.2, h0]
+  simp
+
+/-- `sequence-start` through the window: set on the first element, cleared afterwards -/
+theorem start_cleared (sv : SeqVars) (w : BWin) (i : Nat) :
+    (afterItem sv w i).started = (sv.started && !(i == w.first)) := by
+  unfold afterItem
+  by_cases h : i = w.first
+  · simp [h]
+  · have : (i == w.first) = false := by simpa using h
+    simp [this]
+
+/-- **The rendered window is C11's window**: for a non-empty sequence and `orphan ≥ 0`, the loop of a batched
+dtml-in starts at element `start` and stops after element `end` of `Batch.window` (1-based), which lies inside the
+sequence (`C11.opt_window`) — so `end - start + 1` elements are rendered -/
+theorem window_is_batch_window (bp : BatchP) (len : Nat) (hl : 1 ≤ len) (ho : 0 ≤ bp.orphan) :
+    let w := Batch.window bp.start bp.end_ bp.size bp.orphan ⟨len, false⟩
+    ((bwinOf bp len).first : Int) = w.1 - 1 ∧ ((bwinOf bp len).stop : Int) = w.2.1 ∧
+    (bwinOf bp len).first < (bwinOf bp len).stop ∧ (bwinOf bp len).stop ≤ len := by
+  have h := C11.opt_window bp.start bp.end_ bp.size bp.orphan ⟨len, false⟩ (by show (1 : Int) ≤ (len : Int); omega) ho
+  simp only at h ⊢
+  obtain ⟨h1, h2, h3⟩ := h
+  simp only [bwinOf]
+  refine ⟨by omega, by omega, by omega, by omega⟩
+
+/-- the number of elements a completed batched loop has rendered: `end - start + 1` of the window -/
+theorem batched_count (env : Env) (hg : env.guardOn = false) (fuel : Nat) (sv : SeqVars) (o : InOpts) (bp : BatchP)
+    (len : Nat) (hl : 1 ≤ len) (ho : 0 ≤ bp.orphan) (body : List Blk) (st st' : St) (ps : List Piece)
+    (h : inLoopB env fuel sv o (bwinOf bp len) body (bwinOf bp len).first st = (.ok ps, st')) :
+    (ps.length : Int) =
+      (Batch.window bp.start bp.end_ bp.size bp.orphan ⟨len, false⟩).2.1 -
+      (Batch.window bp.start bp.end_ bp.size bp.orphan ⟨len, false⟩).1 + 1 := by
+  have hc := once_per_window_element env hg fuel sv o (bwinOf bp len) body _ st st' ps h
+  have hw := window_is_batch_window bp len hl ho
+  simp only at hw
+  omega
+
+/-! ##### the batch variables -/
+
+theorem lookup_setKV_same (kvs : List (Render.Text × Val)) (k : Render.Text) (v : Val) : (setKV kvs k v).lookup k = some v := by
+  unfold setKV
+  induction kvs with
+  | nil => simp [List.lookup]
+  | cons kv t ih =>
+    obtain ⟨k', v'⟩ := kv
+    by_cases h : k' = k
+    · subst h; simpa [List.filter] using ih
+    · have hne : (k' != k) = true := by simpa using h
+      have hne' : (k == k') = false := by
+        simp only [beq_eq_false_iff_ne, ne_eq]; exact fun e => h e.symm
+      simp only [List.filter, hne, List.cons_append, List.lookup_cons, hne']
+      exact ih
+
+theorem lookup_setKV_other (kvs : List (Render.Text × Val)) (k k' : Render.Text) (v : Val) (h : k' ≠ k) :
+    (setKV kvs k v).lookup k' = kvs.lookup k' := by
+  unfold setKV
+  induction kvs with
+  | nil =>
+    have : (k' == k) = false := by simpa using h
+    simp [List.lookup, this]
+  | cons kv t ih =>
+    obtain ⟨k2, v2⟩ := kv
+    by_cases h2 : k2 = k
+    · subst h2
+      have hk : (k' == k2) = false := by simpa using h
+      simp only [List.filter, bne_self_eq_false, List.lookup_cons, hk]
+      exact ih
+    · have hne : (k2 != k) = true := by simpa using h2
+      simp only [List.filter, hne, List.cons_append, List.lookup_cons]
+      split
+      · rfl
+      · exact ih
+
+/-- the name under which a batch variable is stored a second time contains an underscore -/
+theorem alias_has_underscore (p n : Render.Text) : '_' ∈ prefixAlias p n := by
+  unfold prefixAlias
+  split <;> simp
+
+theorem extra_set_same (sv : SeqVars) (n : Render.Text) (v : Val) (hn : '_' ∉ n) : (sv.set n v).extra.lookup n = some v := by
+  unfold SeqVars.set
+  cases hp : sv.prefix_ with
+  | none => simp only [lookup_setKV_same]
+  | some p =>
+    have hne : n ≠ prefixAlias p n := fun e => hn (e ▸ alias_has_underscore p n)
+    simp only [lookup_setKV_other _ _ _ _ hne, lookup_setKV_same]
+
+/-- … and storing one variable leaves the others as they were -/
+theorem extra_set_other (sv : SeqVars) (n k : Render.Text) (v : Val) (hk : '_' ∉ k) (hne : k ≠ n) :
+    (sv.set n v).extra.lookup k = sv.extra.lookup k := by
+  unfold SeqVars.set
+  cases hp : sv.prefix_ with
+  | none => simp only [lookup_setKV_other _ _ _ _ hne]
+  | some p =>
+    have hne2 : k ≠ prefixAlias p n := fun e => hk (e ▸ alias_has_underscore p n)
+    simp only [lookup_setKV_other _ _ _ _ hne2, lookup_setKV_other _ _ _ _ hne]
+
+/-- what the variables' own dictionary holds is what a lookup finds -/
+theorem seqGet_of_extra (sv : SeqVars) (k : Render.Text) (v : Val) (h : sv.extra.lookup k = some v) : seqGet sv k = .val v := by
+  unfold seqGet
+  rw [h]
+
+/-- **a stored batch variable is found under its name** (with or without `prefix=`: the prefixed copy has another
+name, since batch variable names contain no underscore) -/
+theorem get_set_same (sv : SeqVars) (n : Render.Text) (v : Val) (hn : '_' ∉ n) : seqGet (sv.set n v) n = .val v :=
+  seqGet_of_extra _ _ _ (extra_set_same sv n v hn)
+
+/-- **with `prefix=p` the same value is also found under the prefixed name** (`previous-sequence` ↦
+`p_previous-sequence`, `sequence-step-size` ↦ `p_step_size`) -/
+theorem get_set_alias (sv : SeqVars) (p n : Render.Text) (v : Val) (hp : sv.prefix_ = some p) :
+    seqGet (sv.set n v) (prefixAlias p n) = .val v := by
+  apply seqGet_of_extra
+  unfold SeqVars.set
+  simp only [hp, lookup_setKV_same]
+
+/-- **The previous batch as announced** (on the first element of a window that has predecessors, and by the
+`previous` form of the tag): previous-sequence is 1 and the -start-index / -end-index / -size variables describe
+`opt(0, start - 1 + overlap, size, orphan)` — C11's `links.prevStart / prevEnd` -/
+theorem prev_vars (sv : SeqVars) (w : BWin) :
+    seqGet (prevInfo sv w true) (txt "previous-sequence") = .val (.int 1) ∧
+    (∀ f, seqGet (prevInfo sv w f) (txt "previous-sequence-start-index") =
+      .val (.int ((Batch.opt 0 (w.first + w.overlap) w.sz w.orphan ⟨sv.items.length, false⟩).1 - 1))) ∧
+    (∀ f, seqGet (prevInfo sv w f) (txt "previous-sequence-end-index") =
+      .val (.int ((Batch.opt 0 (w.first + w.overlap) w.sz w.orphan ⟨sv.items.length, false⟩).2.1 - 1))) ∧
+    (∀ f, seqGet (prevInfo sv w f) (txt "previous-sequence-size") =
+      .val (.int ((Batch.opt 0 (w.first + w.overlap) w.sz w.orphan ⟨sv.items.length, false⟩).2.1 + 1 -
+                  (Batch.opt 0 (w.first + w.overlap) w.sz w.orphan ⟨sv.items.length, false⟩).1))) := by
+  refine ⟨?_, ?_, ?_, ?_⟩
+  · apply seqGet_of_extra
+    unfold prevInfo
+    simp only [if_true]
+    rw [extra_set_other _ _ _ _ (by decide) (by decide), extra_set_other _ _ _ _ (by decide) (by decide),
+      extra_set_other _ _ _ _ (by decide) (by decide)]
+    exact extra_set_same _ _ _ (by decide)
+  · intro f
+    apply seqGet_of_extra
+    unfold prevInfo
+    dsimp only
+    rw [extra_set_other _ _ _ _ (by decide) (by decide), extra_set_other _ _ _ _ (by decide) (by decide)]
+    exact extra_set_same _ _ _ (by decide)
+  · intro f
+    apply seqGet_of_extra
+    unfold prevInfo
+    dsimp only
+    rw [extra_set_other _ _ _ _ (by decide) (by decide)]
+    exact extra_set_same _ _ _ (by decide)
+  · intro f
+    apply seqGet_of_extra
+    unfold prevInfo
+    dsimp only
+    exact extra_set_same _ _ _ (by decide)
+
+/-- **The next batch as announced** (on the last element of a window that has successors, and by the `next` form):
+next-sequence is 1 and the variables describe `opt(end + 1 - overlap, 0, size, orphan)` — C11's
+`links.nextStart / nextEnd` -/
+theorem next_vars (sv : SeqVars) (w : BWin) :
+    seqGet (nextInfo sv w true) (txt "next-sequence") = .val (.int 1) ∧
+    (∀ f, seqGet (nextInfo sv w f) (txt "next-sequence-start-index") =
+      .val (.int ((Batch.opt (w.stop + 1 - w.overlap) 0 w.sz w.orphan ⟨sv.items.length, false⟩).1 - 1))) ∧
+    (∀ f, seqGet (nextInfo sv w f) (txt "next-sequence-end-index") =
+      .val (.int ((Batch.opt (w.stop + 1 - w.overlap) 0 w.sz w.orphan ⟨sv.items.length, false⟩).2.1 - 1))) ∧
+    (∀ f, seqGet (nextInfo sv w f) (txt "next-sequence-size") =
+      .val (.int ((Batch.opt (w.stop + 1 - w.overlap) 0 w.sz w.orphan ⟨sv.items.length, false⟩).2.1 + 1 -
+                  (Batch.opt (w.stop + 1 - w.overlap) 0 w.sz w.orphan ⟨sv.items.length, false⟩).1))) := by
+  refine ⟨?_, ?_, ?_, ?_⟩
+  · apply seqGet_of_extra
+    unfold nextInfo
+    simp only [if_true]
+    rw [extra_set_other _ _ _ _ (by decide) (by decide), extra_set_other _ _ _ _ (by decide) (by decide),
+      extra_set_other _ _ _ _ (by decide) (by decide)]
+    exact extra_set_same _ _ _ (by decide)
+  · intro f
+    apply seqGet_of_extra
+    unfold nextInfo
+    dsimp only
+    rw [extra_set_other _ _ _ _ (by decide) (by decide), extra_set_other _ _ _ _ (by decide) (by decide)]
+    exact extra_set_same _ _ _ (by decide)
+  · intro f
+    apply seqGet_of_extra
+    unfold nextInfo
+    dsimp only
+    rw [extra_set_other _ _ _ _ (by decide) (by decide)]
+    exact extra_set_same _ _ _ (by decide)
+  · intro f
+    apply seqGet_of_extra
+    unfold nextInfo
+    dsimp only
+    exact extra_set_same _ _ _ (by decide)
+
+/-- the announced neighbours are C11's links of the window `start = first + 1`, `end = stop` -/
+theorem vars_are_links (w : BWin) (len : Nat) :
+    (Batch.links (w.first + 1) w.stop w.sz w.orphan w.overlap ⟨len, false⟩).prevStart =
+      (Batch.opt 0 (w.first + w.overlap) w.sz w.orphan ⟨len, false⟩).1 ∧
+    (Batch.links (w.first + 1) w.stop w.sz w.orphan w.overlap ⟨len, false⟩).prevEnd =
+      (Batch.opt 0 (w.first + w.overlap) w.sz w.orphan ⟨len, false⟩).2.1 ∧
+    (Batch.links (w.first + 1) w.stop w.sz w.orphan w.overlap ⟨len, false⟩).nextStart =
+      (Batch.opt (w.stop + 1 - w.overlap) 0 w.sz w.orphan ⟨len, false⟩).1 ∧
+    (Batch.links (w.first + 1) w.stop w.sz w.orphan w.overlap ⟨len, false⟩).nextEnd =
+      (Batch.opt (w.stop + 1 - w.overlap) 0 w.sz w.orphan ⟨len, false⟩).2.1 := by
+  have h : ((w.first : Int) + 1 - 1 + w.overlap) = (w.first : Int) + w.overlap := by omega
+  simp only [Batch.links, h, and_self]
+
+/-- **Nothing a batched dtml-in binds remains visible after its end tag** (C08), whatever the options -/
+theorem inx_scope_ends (env : Env) (fuel : Nat) (src : Src) (o : InOpts) (x : InXOpts) (body : List Blk)
+    (els : Option (List Blk)) (st : St) :
+    (renderBlk env fuel (.inx_ src o x body els) st).2.stack.map C08.erase = st.stack.map C08.erase ∧
+    (renderBlk env fuel (.inx_ src o x body els) st).2.level = st.level :=
+  C08.block_preserves_stack env fuel (.inx_ src o x body els) st
+
+/-! ##### non-vacuity: a concrete batched rendering, evaluated in the kernel (five elements, start=2 size=2) -/
+section Example
+private def okText : Res (List Piece) → Option (List Piece)
+  | .ok ps => some ps
+  | _ => none
+private def five : Val := .list [.int 10, .int 20, .int 30, .int 40, .int 50]
+private def v (n : String) : Blk := .var (.name n.toList) false none none
+set_option maxHeartbeats 4000000 in
+example : okText (renderBlk {} 60 (.inx_ (.name "seq".toList) {} { batch := some { start := 2, size := 2 } }
+      [v "sequence-number", .lit ":".toList, v "previous-sequence", .lit ":".toList, v "next-sequence", .lit ":".toList,
+       v "next-sequence-start-number", .lit ";".toList] none)
+    { stack := [.dict [("seq".toList, five)]] }).1 = some [.text "2:1:0:4;3:0:1:4;".toList] := by decide +kernel
+set_option maxHeartbeats 4000000 in
+example : okText (renderBlk {} 60 (.inx_ (.name "seq".toList) {} { batch := some { start := 2, size := 2, previous := true } }
+      [v "previous-sequence-start-number", .lit "-".toList, v "previous-sequence-end-number", .lit ";".toList]
+      (some [.lit "none".toList]))
+    { stack := [.dict [("seq".toList, five)]] }).1 = some [.text "1-1;".toList] := by decide +kernel
+end Example
+
+end Batched
 
 end DTML.Props.C10
